@@ -985,11 +985,12 @@ func (h *headReader) Read(ctx context.Context, out frame.Frame) (n int, err erro
 	if h.n <= 0 {
 		return 0, sliceio.EOF
 	}
+	if out.Len() > h.n {
+		// Read (and thus write) only as many rows as remain to be delivered.
+		out = out.Slice(0, h.n)
+	}
 	n, err = h.reader.Read(ctx, out)
 	h.n -= n
-	if h.n < 0 {
-		n -= -h.n
-	}
 	return
 }
 
